@@ -21,7 +21,7 @@ pub fn spec() -> Spec {
         nshards: |_| 16,
         case_cap_s: |t| t.pick(300, 3600),
         rule: "one case per connected complete 2-dimensional symbol: every labeled symbol of size <= 4 (all renumberings) and every class representative of size 5 (thorough: up to 7, with systematic renumberings) x every branching vector over {1,2,3,4,5,11}. Clauses: curvature = sum over chambers of 1/m01 + 1/m12 - 1/2 (definition); curvature = 2 * chi(parse(orbifold_symbol)); symbol (normalised over cone order, component order, rotation and reversal of corner lists) and curvature equal to those of the class representative and of the dual; curvature of harness-built 2-sheeted covers, of oriented_cover and of covers(s, <= 3) = sheets * curvature; is_euclidean/is_hyperbolic/is_spherical against the sign of K and the tear-drop/spindle test on the orbifold computed from the definitions by the reference model. Non-trivial = size >= 2 or some branching > 1.",
-        assumptions: &["covers(s, k) and oriented_cover only supply covers; each is verified to be a covering by the reference model and its sheet number is taken from that verification"],
+        assumptions: &["what covers(s, k) and oriented_cover return is taken to be a cover with sheet number = size ratio (whether it is a covering is C05's clause); harness-built 2-sheeted covers are verified coverings"],
         bounds: |t| json!({"labeled_max_size": 4, "class_representatives_size": t.pick(7, 8), "V": [1,2,3,4,5,11], "coprime_polygon_family": "mirror polygons with 4-11 [13] corners of pairwise coprime orders from {41, ..., 97}, 14 rotations of the list each; as given, reversed, dual", "large_family": "2D Coxeter coset symbols of 6-120 [384] chambers and every 7th [2nd] generator representative of 9-12 [14] chambers (unbranched, one branched orbit), as given and in 2 renumberings", "degree_boundary_family": "sizes <= 3 [4], values 1-13, 19-21, 99-101, 999, 1000 on <= 2 orbits (1 orbit above size 2)", "size_5_plus_V": t.pick(json!([1,2,3,4,5,11]), json!([1,2,3,5,11])),
             "crate_covers_max_sheets": 3, "crate_covers_on_sizes_up_to": t.pick(3, 4)}),
     }
@@ -132,7 +132,11 @@ fn check_symbol(ctx: &mut Ctx, family: &str, s: &RS, rep: Option<&RS>, with_cove
             if valid_symbol(&c).is_err() || !c.commutes() {
                 continue;
             }
-            if let Some(k) = c.covers(s) {
+            // harness-built covers are verified coverings by construction of the list; what the crate returns as a
+            // cover is taken at its word (sheet number = size ratio): if it is not a covering, C05 says so, and
+            // the curvature clause of this property fails with it
+            let sheets = if what == "harness 2-sheeted" { c.covers(s) } else if c.n % s.n == 0 && c.n > 0 { Some(c.n / s.n) } else { None };
+            if let Some(k) = sheets {
                 ctx.ops(1);
                 ctx.add("covers_checked", 1);
                 match ctx.guard(|| frac(curvature(&to_partial_dsym(&c)))) {
